@@ -118,7 +118,7 @@ def run(chk):
             kw["cluster"] = rng.choice([0.4, 0.5, 0.6])            # an extra clustering section: still cosine spacing, finer
         elif var == "attitude":
             kw["orientation"] = [round(rng.uniform(-40, 40), 1), round(rng.uniform(-25, 25), 1), round(rng.uniform(-170, 170), 1)]
-            kw["constrain"] = rng.random() < 0.5
+            kw["constrain"] = (it // 6) % 2 == 0          # (enumerated: the first attitude case constrains the sheet)
         elif var == "ref_area":
             kw["ref_area"] = 1.0                                     # enclosing rectangle 2 b c_root as the reference area
         elif var == "unit_tag":
